@@ -1283,8 +1283,10 @@ def cookie_inputs(v):
     a = {}
     ek = pick(v, 'expires', 3)
     a['expires'] = None if ek == 0 else GhostDT(v, None if ek == 1 else v.real('datetime:timezone')(v.real('datetime:timedelta')(hours=2)), 'expires')
-    mk = pick(v, 'max_age', 5)
-    a['max_age'] = [None, None, 3.7, '15', 0][mk] if mk != 1 else v.int('max_age')
+    mk = pick(v, 'max_age', 6)  # 0 absent, 1 any int, 2 float, 3 str, 4 zero, 5 any non-zero int
+    a['max_age'] = [None, None, 3.7, '15', 0, None][mk] if mk not in (1, 5) else v.int('max_age')
+    if mk == 5:
+        v.assume(a['max_age'] != 0)
     for k in ('domain', 'path'):
         a[k] = v.str(k) if pick(v, k + '?', 2) else None
     sk = pick(v, 'secure', 3)
@@ -1418,17 +1420,17 @@ def _set_cookie(v):
 _DEFAULTS = {'expires': [0], 'max_age': [0], 'domain?': [0], 'path?': [0], 'secure': [0], 'http_only': [1], 'same_site': [0], 'partitioned': [0],
              'jar': [0], 'jar-rejects-the-name': [0], 'X-shape': [0]}
 SC_TARGET = RESP + '.set_cookie'
-# every combination of the attribute arguments (samesite: absent / arbitrary string; max_age: absent / arbitrary int), split for parallel runs
+# every combination of the attribute arguments (samesite: absent / arbitrary string; max_age: absent / arbitrary non-zero int), split for parallel runs
 for _ex in range(3):
     for _sec in range(3):
         harness(PROP, SC_TARGET, name='set_cookie[expires=%d,secure=%d]' % (_ex, _sec), setup=_cookie_setup, fixed_name=('sid', 'abc123'),
-                only=dict(_DEFAULTS, **{'expires': [_ex], 'secure': [_sec], 'max_age': [0, 1], 'domain?': [0, 1], 'path?': [0, 1], 'http_only': [0, 1],
+                only=dict(_DEFAULTS, **{'expires': [_ex], 'secure': [_sec], 'max_age': [0, 5], 'domain?': [0, 1], 'path?': [0, 1], 'http_only': [0, 1],
                                        'same_site': [0, 1], 'partitioned': [0, 1]}))(_set_cookie)
 # samesite in concrete spellings (replayable), max_age coercions (float, str, zero), jar states (other cookie / same name again / rejected name)
 harness(PROP, SC_TARGET, name='set_cookie[samesite-spellings]', setup=_cookie_setup, only=dict(_DEFAULTS, **{'same_site': [2, 3, 4, 5, 6], 'jar': [0, 1]}))(_set_cookie)
 harness(PROP, SC_TARGET, name='set_cookie[max-age-coercion]', setup=_cookie_setup, only=dict(_DEFAULTS, **{'max_age': [1, 2, 3, 4]}))(_set_cookie)
 harness(PROP, SC_TARGET, name='set_cookie[jar-states]', setup=_cookie_setup,
-        only=dict(_DEFAULTS, **{'jar': [0, 1, 2], 'jar-rejects-the-name': [0, 1], 'X-shape': [0, 2], 'max_age': [0, 1], 'domain?': [0, 1]}))(_set_cookie)
+        only=dict(_DEFAULTS, **{'jar': [0, 1, 2], 'jar-rejects-the-name': [0, 1], 'X-shape': [0, 2], 'max_age': [0, 5], 'domain?': [0, 1]}))(_set_cookie)
 
 
 @harness(PROP, RESP + '.unset_cookie', setup=_cookie_setup)
